@@ -101,7 +101,11 @@ HARNESSES = [
              "delete_function": "del_stub"},
          flags=LEAK, timeout=900, unwind=6,
          cases=[dict(id="n%d" % n, defines={"N": n}, tier="quick",
-                     unwindset=["str_table_copy.0:%d" % (n + 2), "str_table_cleanup.0:%d" % (n + 2)])
+                     # strcpy / strlen bounds: an implementation that copies the 7 byte
+                     # strings with libc calls must reach the obligations (seed C19-8 was
+                     # first reported as an unwinding assertion of strcpy only)
+                     unwindset=["str_table_copy.0:%d" % (n + 2), "str_table_cleanup.0:%d" % (n + 2),
+                                "strcpy.0:10", "strlen.0:10", "memcpy.0:10"])
                 for n in (1, 2)]),
     dict(name="comp_xz", file="comp_flat.c", label="proved", defines={"COMP": 1},
          fp={"destroy": "xz_destroy", "copy": "xz_create_copy", "*": "c19_unreachable_read_at"},
